@@ -23,3 +23,72 @@ fn u51_done_adds_nothing() {
     // Rec::finalize_reset returns [len, bytes...]
     assert!(rec[0] == 0, "done() appended bytes to the digest input");
 }
+
+/// Canonical text form, written from RFC 9580 5.2.1.2 / 5.2.4 ("<CR><LF> line endings") as the
+/// property states it: every LF that is not preceded by CR becomes CR LF, every other octet
+/// (including a lone CR) is unchanged.  Returns (bytes, len); 4 input octets give at most 8.
+fn k03_canon(text: &[u8]) -> ([u8; 8], usize) {
+    let mut out = [0u8; 8];
+    let mut n = 0;
+    let mut i = 0;
+    while i < text.len() {
+        if text[i] == b'\n' && (i == 0 || text[i - 1] != b'\r') {
+            out[n] = b'\r';
+            n += 1;
+        }
+        out[n] = text[i];
+        n += 1;
+        i += 1;
+    }
+    (out, n)
+}
+
+/// K03 (C14/C06/C09): text mode.  For every text of <= 4 octets (all 256 values per octet) and
+/// every split position k, `hash_buf(text[..k]); hash_buf(text[k..]); done()` feeds the digest
+/// exactly canon(text): chunking does not change what is hashed.  Bounded(4 octets, 2 chunks).
+#[kani::proof]
+#[kani::unwind(7)]
+fn k03_normalizing_hasher_text_two_chunks() {
+    let text: [u8; 4] = kani::any();
+    let n: usize = kani::any();
+    let k: usize = kani::any();
+    kani::assume(n <= 4 && k <= n); // input shaping: length and split position
+    let mut h = NormalizingHasher::new(Box::new(Rec::new()), true);
+    h.hash_buf(&text[..k]);
+    h.hash_buf(&text[k..n]);
+    let mut d = h.done();
+    let rec = d.finalize_reset(); // [len, bytes...]
+    let (want, wn) = k03_canon(&text[..n]);
+    assert!(rec[0] as usize == wn, "number of octets hashed differs from canon(text)");
+    let mut i = 0;
+    while i < wn {
+        assert!(rec[1 + i] == want[i], "octets hashed differ from canon(text)");
+        i += 1;
+    }
+    // CR | LF split across the two chunks, a lone LF and a lone CR
+    kani::cover!(n == 4 && k == 2 && text[1] == b'\r' && text[2] == b'\n' && text[3] == b'\n');
+    kani::cover!(n == 3 && k == 1 && text[0] == b'\r' && text[1] == b'a' && text[2] == b'\r');
+    kani::cover!(wn == 8);
+}
+
+/// K03: binary mode is the identity for every data of <= 4 octets and every split.
+#[kani::proof]
+#[kani::unwind(7)]
+fn k03_normalizing_hasher_binary_identity() {
+    let data: [u8; 4] = kani::any();
+    let n: usize = kani::any();
+    let k: usize = kani::any();
+    kani::assume(n <= 4 && k <= n);
+    let mut h = NormalizingHasher::new(Box::new(Rec::new()), false);
+    h.hash_buf(&data[..k]);
+    h.hash_buf(&data[k..n]);
+    let mut d = h.done();
+    let rec = d.finalize_reset();
+    assert!(rec[0] as usize == n, "binary mode changed the number of octets hashed");
+    let mut i = 0;
+    while i < n {
+        assert!(rec[1 + i] == data[i], "binary mode changed an octet");
+        i += 1;
+    }
+    kani::cover!(n == 4 && k == 1 && data[0] == b'\r' && data[1] == b'\n' && data[2] == b'\n');
+}
